@@ -745,7 +745,10 @@ func replayCmd(path string) int {
 	defer cleanup(scratch)
 	for _, u := range units {
 		ok, out := confirm(u, scratch, abs, true)
-		if strings.Contains(out, "REPLAY-RESULT") {
+		if strings.Contains(out, "REPLAY-RESULT") || strings.Contains(out, "REPLAY-CRASH-SEED") {
+			if len(out) > 20000 {
+				out = out[:20000] + "\n...(truncated)"
+			}
 			fmt.Println(out)
 			if ok {
 				fmt.Printf("VIOLATION property=%s replay=%s\n", rp.Property, abs)
